@@ -359,6 +359,16 @@ func c01Judge(r *core.Run, scen string, names []string, plan lnmodel.PayPlan, o 
 		r.Violate(key, fmt.Sprintf("one proof used %d times: %d successful swap(s) and %d Lightning payment(s) made/in flight for melts of it", uses, o.swapOK, o.meltUse), sig,
 			map[string]any{"schedule": o.schedule, "results": o.results, "trace": o.trace})
 	}
+	// a proof locked in a melt whose payment succeeded goes from PENDING to SPENT: no state check,
+	// however it interleaves with the request that settles the melt, may report it UNSPENT
+	if plan.Truth == lnmodel.Succeeded && strings.Contains(scen, "settle") {
+		for _, x := range o.results {
+			if x == "check:UNSPENT" {
+				r.Violate(fmt.Sprintf("pair=%s;ln=%s;locked-proof-reported-UNSPENT", scen, planName(plan)), "a state check that ran while the pending melt was being settled reported the proof UNSPENT (it went from PENDING to SPENT)", sig,
+					map[string]any{"schedule": o.schedule, "results": o.results, "trace": o.trace})
+			}
+		}
+	}
 	for _, x := range o.results {
 		if x == "STICKINESS-BROKEN" {
 			r.Violate(fmt.Sprintf("pair=%s;ln=%s;stickiness", scen, planName(plan)), "proof was used but is reported UNSPENT afterwards", sig,
@@ -384,6 +394,8 @@ func c01Pairs(r *core.Run) {
 		// a pending melt whose payment has meanwhile succeeded is settled by a poll / a state check while a swap of the same proof runs
 		scen{name: "swap|poll-settles-pending-melt", ops: []c01Op{{"P", "premelt", 0}, {"A", "swap", 0}, {"B", "poll", 0}}, plan: settled},
 		scen{name: "swap|checkstate-settles-pending-melt", ops: []c01Op{{"P", "premelt", 0}, {"A", "swap", 0}, {"B", "check", 0}}, plan: settled},
+		// a poll settles the pending melt (payment succeeded) while a state check reads the two tables
+		scen{name: "poll|checkstate-on-settled-pending-melt", ops: []c01Op{{"P", "premelt", 0}, {"A", "poll", 0}, {"B", "check", 0}}, plan: settled, bound: [2]int{2, 4}},
 		// a state check arrives while the melt request is still between locking the proofs and paying, then a swap
 		scen{name: "swap|melt|checkstate", ops: []c01Op{{"A", "swap", 0}, {"B", "melt", 0}, {"C", "check2", 0}}, plan: succ, bound: [2]int{1, 2}},
 		// a pending melt has failed at the node; a poll and a state check discover it while the client
